@@ -1,4 +1,4 @@
-import OtelVerif.Model.C18
+import OtelVerif.Model.C18Src
 /-!
 # C18 — the memory limiter refuses data exactly while usage is at or above the soft limit
 
@@ -784,5 +784,505 @@ theorem C18_loop_tick_any_context (k : Checker) (gs gh : Int) (ls : List LblC) :
   Sys.checking_iff k gs gh _
 
 example : usersL ([LblC.start .live, .start .expired, .shutdown .cancelled, .shutdown .expired].map LblC.erase) = 0 := by decide
+
+
+/-! # Round 2 (second session): the model against the definitions regenerated from /repo, construction, total memory, factory -/
+section Src
+open OtelVerif.Gen
+
+/-! ## the model equals the definitions regenerated from the Go source -/
+
+/-- `validate` is the regenerated `Config.Validate`: same acceptance, same error variable -/
+theorem C18_src_validate (c : Config) :
+    (MemLimiter.Config.Validate c.toGo = 0 ↔ validate c = 0) ∧
+    srcErrName (MemLimiter.Config.Validate c.toGo) = validateErrName (validate c) := by
+  unfold MemLimiter.Config.Validate validate Config.toGo
+  simp only [Bool.and_eq_true, Bool.or_eq_true, decide_eq_true_eq]
+  repeat' split
+  all_goals simp_all [srcErrName, validateErrName, MemLimiter.errNames]
+
+theorem src_aboveSoft (k : Checker) (a : Nat) : MemLimiter.memUsageChecker.aboveSoftLimit k.toGo a = k.aboveSoft a := by
+  simp only [MemLimiter.memUsageChecker.aboveSoftLimit, Checker.aboveSoft, Checker.toGo, MemLimiter.u64sub, wsub, MemLimiter.W, W]
+  exact decide_eq_decide.mpr Iff.rfl
+
+theorem src_aboveHard (k : Checker) (a : Nat) : MemLimiter.memUsageChecker.aboveHardLimit k.toGo a = k.aboveHard a := by
+  simp [MemLimiter.memUsageChecker.aboveHardLimit, Checker.aboveHard, Checker.toGo]
+
+/-- the two comparisons are the regenerated `aboveSoftLimit` / `aboveHardLimit` (with the `uint64` subtraction) -/
+theorem C18_src_above (k : Checker) (a : Nat) :
+    MemLimiter.memUsageChecker.aboveSoftLimit k.toGo a = k.aboveSoft a ∧ MemLimiter.memUsageChecker.aboveHardLimit k.toGo a = k.aboveHard a :=
+  ⟨src_aboveSoft k a, src_aboveHard k a⟩
+
+theorem src_newFixed (l s : Nat) : MemLimiter.newFixedMemUsageChecker l s = (newFixed l s).toGo := by
+  unfold MemLimiter.newFixedMemUsageChecker newFixed
+  by_cases h : s = 0 <;> simp [h, Checker.toGo, MemLimiter.u64div]
+
+theorem mkChecker_eq_G (c : Config) (total : Nat) : mkChecker c total = mkCheckerG newPct c total := rfl
+
+/-- `getMemUsageChecker` (fixed wins over percentage; spike 0 → 20 %; the `GetMemoryFn` error) is the regenerated one, whatever
+the source's percentage formula is (`srcPct` = the regenerated `newPercentageMemUsageChecker`) -/
+theorem C18_src_checker (c : Config) (mem : Option Nat) :
+    MemLimiter.getMemUsageChecker c.toGo mem = (mkCheckerGE srcPct c mem).map Checker.toGo := by
+  unfold MemLimiter.getMemUsageChecker mkCheckerGE mkCheckerG
+  by_cases h : c.limitMiB = 0
+  · cases mem <;> simp [h, Config.toGo, srcPct, Checker.ofGo, Checker.toGo]
+  · simp [h, Config.toGo, src_newFixed, MemLimiter.u64mul, wmul, MemLimiter.W, W, MemLimiter.mibBytes, mib]
+
+set_option linter.unusedSimpArgs false in
+/-- **which percentage formula the source has**: either the unrepaired `pct*total/100` with the product in `uint64`
+(`newPct`), or the repaired `percentOf` (`newPctSafe`); the proof picks whichever the regenerated definition is -/
+theorem C18_src_percentage_formula : SrcPctPinned ∨ SrcPctSafe := by
+  first
+  | (refine Or.inl ?_
+     intro T pl ps
+     simp [srcPct, Checker.ofGo, MemLimiter.newPercentageMemUsageChecker, newPct, src_newFixed, Checker.toGo,
+        MemLimiter.u64mul, MemLimiter.u64div, wmul, MemLimiter.W, W]
+     done)
+  | (refine Or.inr ?_
+     intro T pl ps
+     simp [srcPct, Checker.ofGo, MemLimiter.newPercentageMemUsageChecker, MemLimiter.percentOf, newPctSafe, pctOf, src_newFixed, Checker.toGo,
+        MemLimiter.u64mul, MemLimiter.u64div, MemLimiter.u64mod, MemLimiter.u64add, wmul, MemLimiter.W, W]
+     done)
+
+/-- **`check` is the regenerated `CheckMemLimits`** (compiled statement by statement from memorylimiter.go, `doGCandReadMemStats`
+included): run in the world where the clock shows `r.now`, the next readings are `r.alloc`, `r.allocAfterGC` and a GC takes
+`r.gcDur`, it leaves `mustRefuse` / `lastGCDone` as the model says, calls `runGCFn` exactly when the model says a GC ran and
+reads memory once, or twice when a GC ran -/
+theorem C18_src_check (k : Checker) (gs gh : Int) (s : LState) (r : Reading) (rest : List Nat) :
+    let w' := MemLimiter.MemoryLimiter.CheckMemLimits ⟨k.toGo, gs, gh⟩ (worldOf s r rest)
+    let o := check k gs gh s r
+    w'.mustRefuse = o.st.mustRefuse ∧ w'.lastGCDone = o.st.lastGC ∧
+    w'.gcCalls = (if o.gcRan then 1 else 0) ∧ w'.readCalls = (if o.gcRan then 2 else 1) ∧
+    w'.reads = (if o.gcRan then rest else r.allocAfterGC :: rest) := by
+  simp only [MemLimiter.MemoryLimiter.CheckMemLimits, MemLimiter.MemoryLimiter.doGCandReadMemStats, MemLimiter.readMemStats,
+    MemLimiter.runGC, worldOf, check, src_aboveSoft, src_aboveHard, List.headD_cons, List.tail_cons]
+  cases hs : k.aboveSoft r.alloc <;> cases hh : k.aboveHard r.alloc <;> simp
+  all_goals split <;> simp_all
+
+
+theorem mkCheckerG_fixed_total (pct : Nat → Nat → Nat → Checker) (c : Config) (h : c.limitMiB ≠ 0) (t t' : Nat) :
+    mkCheckerG pct c t = mkCheckerG pct c t' := by
+  simp [mkCheckerG, h]
+
+theorem mkCheckerGE_some (pct : Nat → Nat → Nat → Checker) (c : Config) (total : Nat) :
+    mkCheckerGE pct c (some total) = some (mkCheckerG pct c total) := by
+  unfold mkCheckerGE
+  by_cases h : c.limitMiB ≠ 0
+  · simp [h, mkCheckerG_fixed_total pct c h 0 total]
+  · simp [h]
+
+theorem mkCheckerE_some (c : Config) (total : Nat) : mkCheckerE c (some total) = some (mkChecker c total) :=
+  mkCheckerGE_some newPct c total
+
+/-- `NewMemoryLimiter` fails exactly when the percentage path is taken and the total memory cannot be determined; a
+fixed `limit_mib` never consults `GetMemoryFn` (for either percentage formula) -/
+theorem C18_newLimiter_error_iff (pct : Nat → Nat → Nat → Checker) (c : Config) (mem : Option Nat) (now : Int) :
+    newLimiterG pct c mem now = none ↔ (c.limitMiB = 0 ∧ mem = none) := by
+  unfold newLimiterG mkCheckerGE
+  by_cases h : c.limitMiB = 0 <;> cases mem <;> simp [h]
+
+/-- what a successful construction yields: the checker, the configured intervals, mode "accepting",
+`lastGCDone` = the instant of construction (so the first forced GC waits for the minimum interval) -/
+theorem C18_newLimiter_ok (pct : Nat → Nat → Nat → Checker) (c : Config) (total : Nat) (now : Int) :
+    newLimiterG pct c (some total) now =
+      some { k := mkCheckerG pct c total, gcSoft := c.gcSoft, gcHard := c.gcHard, checkInterval := c.checkInterval,
+             st := { mustRefuse := false, lastGC := now } } := by
+  simp [newLimiterG, mkCheckerGE_some]
+
+/-! ### the repaired percentage computation never overflows -/
+
+theorem pctOf_eq (total p : Nat) (hp : p ≤ 100) (ht : total < W) :
+    pctOf total p = p * (total / 100) + p * (total % 100) / 100 ∧ pctOf total p ≤ total := by
+  have h1 : p * (total / 100) ≤ 100 * (total / 100) := Nat.mul_le_mul_right _ hp
+  have h2 : p * (total % 100) ≤ 100 * (total % 100) := Nat.mul_le_mul_right _ hp
+  have h3 : p * (total % 100) / 100 ≤ total % 100 := by
+    rw [Nat.div_le_iff_le_mul_add_pred (by decide)]; omega
+  have h4 : 100 * (total / 100) + total % 100 = total := Nat.div_add_mod total 100
+  have hW : W = 18446744073709551616 := rfl
+  have a1 : p * (total / 100) < W := by omega
+  have a2 : p * (total % 100) < W := by omega
+  unfold pctOf wmul
+  rw [Nat.mod_eq_of_lt a1, Nat.mod_eq_of_lt a2, Nat.mod_eq_of_lt (by omega)]
+  exact ⟨rfl, by omega⟩
+
+theorem pctOf_mono (total p q : Nat) (hpq : p ≤ q) (hq : q ≤ 100) (ht : total < W) : pctOf total p ≤ pctOf total q := by
+  rw [(pctOf_eq total p (by omega) ht).1, (pctOf_eq total q hq ht).1]
+  exact Nat.add_le_add (Nat.mul_le_mul_right _ hpq) (Nat.div_le_div_right (Nat.mul_le_mul_right _ hpq))
+
+/-- **no underflow, repaired code, EVERY total**: with `percentOf` the hypothesis `total < 2^57` is gone — for every accepted
+configuration and every `uint64` total memory the spike limit never exceeds the limit -/
+theorem C18_no_underflow_repaired (c : Config) (total : Nat) (hv : validate c = 0) (hwf : c.wf) (ht : total < W) :
+    (mkCheckerSafe c total).spike ≤ (mkCheckerSafe c total).limit ∧ (mkCheckerSafe c total).limit < W := by
+  have hvo := validate_ok hv
+  by_cases hl : c.limitMiB = 0
+  · have hp : c.limitPct ≠ 0 := by
+      rcases hvo.2.2.1 with h | h
+      · exact absurd hl h
+      · exact h
+    have hsp := hvo.2.2.2.2.2.2 (Nat.pos_of_ne_zero hp)
+    have hl100 := hvo.2.2.2.1
+    have hm := pctOf_mono total c.spikePct c.limitPct (Nat.le_of_lt hsp) hl100 ht
+    have hle := (pctOf_eq total c.limitPct hl100 ht).2
+    have e : mkCheckerSafe c total = newFixed (pctOf total c.limitPct) (pctOf total c.spikePct) := by
+      simp [mkCheckerSafe, mkCheckerG, hl, newPctSafe]
+    rw [e]
+    refine ⟨newFixed_le _ _ hm, ?_⟩
+    have : (newFixed (pctOf total c.limitPct) (pctOf total c.spikePct)).limit = pctOf total c.limitPct := by
+      unfold newFixed; split <;> rfl
+    rw [this]; omega
+  · have h0 := C18_no_underflow c total hv hwf
+    have e : mkCheckerSafe c total = mkChecker c 0 := by
+      simp [mkCheckerSafe, mkCheckerG, mkChecker, hl]
+    rw [e]
+    exact C18_no_underflow c 0 hv hwf (by decide)
+
+/-- the decision of `TotalMemory` is the regenerated one -/
+theorem C18_src_total_memory (q : Quota) (mi : Option Nat) : MemLimiter.TotalMemory q mi = totalMemory q mi := by
+  unfold MemLimiter.TotalMemory totalMemory
+  rcases q with _ | ⟨quota, d⟩
+  · rfl
+  · cases d <;> simp [MemLimiter.unlimitedMemorySize, MemLimiter.W]
+    by_cases h : quota = 9223372036854771712 <;> simp [h]
+
+/-- `TotalMemory` by cases: an error of a cgroup read is an error; a defined quota other than the v1 "unlimited" value is
+the total (for a non-negative quota: itself); an undefined or "unlimited" quota falls back to `/proc/meminfo` -/
+theorem C18_total_memory_cases (mi : Option Nat) :
+    totalMemory none mi = none ∧
+    (∀ quota : Int, quota ≠ 9223372036854771712 → 0 ≤ quota → quota < 18446744073709551616 → totalMemory (some (quota, true)) mi = some quota.toNat) ∧
+    (∀ quota : Int, totalMemory (some (quota, false)) mi = mi) ∧
+    (∀ d : Bool, totalMemory (some (9223372036854771712, d)) mi = mi) := by
+  refine ⟨rfl, ?_, ?_, ?_⟩
+  · intro quota h1 h2 h3
+    simp only [totalMemory, h1, false_or, Bool.true_eq_false, if_false]
+    rw [Int.emod_eq_of_lt h2 h3]
+  · intro quota; simp [totalMemory]
+  · intro d; simp [totalMemory]
+
+/-- the default configuration (regenerated `NewDefaultConfig`) is rejected by `Validate` — "the default configuration is
+expected to fail" — because no check interval is set; its soft-limited GC interval is 10 s -/
+theorem C18_default_config_rejected :
+    validate (Config.ofGo MemLimiter.NewDefaultConfig) = 1 ∧ (Config.ofGo MemLimiter.NewDefaultConfig).gcSoft = 10000000000 := by
+  decide
+
+/-- **the first clause on the regenerated code itself**: for every configuration the regenerated `Validate` accepts
+(`uint32` fields), the checker the regenerated `getMemUsageChecker` builds never underflows and one run of the regenerated
+`CheckMemLimits` leaves `mustRefuse` ⇔ the latest measurement (the second reading exactly when `runGCFn` was called) ≥
+limit − spike.  Total memory: below 2^57 if the source still has the unrepaired percentage formula; ANY `uint64` value if it
+has the repaired one (`C18_src_percentage_formula` says which) -/
+theorem C18_source_first_clause (g : MemLimiter.Config) (hv : MemLimiter.Config.Validate g = 0) (hwf : (Config.ofGo g).wf)
+    (total : Nat) (ht : (total < 2 ^ 57 ∧ SrcPctPinned) ∨ (total < W ∧ SrcPctSafe)) (kk : MemLimiter.memUsageChecker)
+    (hk : MemLimiter.getMemUsageChecker g (some total) = some kk) (s : LState) (r : Reading) (rest : List Nat) :
+    let w' := MemLimiter.MemoryLimiter.CheckMemLimits ⟨kk, g.MinGCIntervalWhenSoftLimited, g.MinGCIntervalWhenHardLimited⟩ (worldOf s r rest)
+    kk.memSpikeLimit ≤ kk.memAllocLimit ∧
+    (w'.mustRefuse = true ↔ (if w'.gcCalls = 1 then r.allocAfterGC else r.alloc) ≥ kk.memAllocLimit - kk.memSpikeLimit) := by
+  have hg : (Config.ofGo g).toGo = g := rfl
+  have hv' : validate (Config.ofGo g) = 0 := (C18_src_validate (Config.ofGo g)).1.mp (by rw [hg]; exact hv)
+  have hk' := C18_src_checker (Config.ofGo g) (some total)
+  rw [hg, hk, mkCheckerGE_some] at hk'
+  -- the checker of the source, and the fact that it does not underflow
+  obtain ⟨k, hkk, hu⟩ : ∃ k : Checker, kk = k.toGo ∧ k.spike ≤ k.limit ∧ k.limit < W := by
+    refine ⟨mkCheckerG srcPct (Config.ofGo g) total, by simpa using hk', ?_⟩
+    rcases ht with ⟨ht, hp⟩ | ⟨ht, hp⟩
+    · have : mkCheckerG srcPct (Config.ofGo g) total = mkChecker (Config.ofGo g) total := by
+        simp only [mkCheckerG, mkChecker]
+        split
+        · rfl
+        · exact hp _ _ _
+      rw [this]; exact C18_no_underflow _ total hv' hwf ht
+    · have : mkCheckerG srcPct (Config.ofGo g) total = mkCheckerSafe (Config.ofGo g) total := by
+        simp only [mkCheckerG, mkCheckerSafe]
+        split
+        · rfl
+        · exact hp _ _ _
+      rw [this]; exact C18_no_underflow_repaired _ total hv' hwf ht
+  have hc := C18_src_check k g.MinGCIntervalWhenSoftLimited g.MinGCIntervalWhenHardLimited s r rest
+  have hr := C18_refuse_iff k hu.1 hu.2 g.MinGCIntervalWhenSoftLimited g.MinGCIntervalWhenHardLimited s r
+  have hl := C18_latest k g.MinGCIntervalWhenSoftLimited g.MinGCIntervalWhenHardLimited s r
+  subst hkk
+  simp only [] at hc ⊢
+  refine ⟨hu.1, ?_⟩
+  rw [hc.1, hc.2.2.1, hr, hl]
+  cases (check k g.MinGCIntervalWhenSoftLimited g.MinGCIntervalWhenHardLimited s r).gcRan <;> simp [Checker.toGo]
+
+/-- **the source has the repaired percentage formula** (`percentOf`; fix "memory limiter computes percentage limits without
+overflowing uint64", in /repo): this theorem stops building on a tree that still multiplies `percentage*totalMemory` in `uint64` -/
+theorem C18_src_percentage_repaired : SrcPctSafe := by
+  intro T pl ps
+  simp [srcPct, Checker.ofGo, MemLimiter.newPercentageMemUsageChecker, MemLimiter.percentOf, newPctSafe, pctOf, src_newFixed, Checker.toGo,
+    MemLimiter.u64mul, MemLimiter.u64div, MemLimiter.u64mod, MemLimiter.u64add, wmul, MemLimiter.W, W]
+
+/-- hence the first clause holds on the regenerated code for EVERY `uint64` total memory — the hypothesis `total < 2^57` of
+round 1 is discharged by the repair -/
+theorem C18_source_first_clause_all_totals (g : MemLimiter.Config) (hv : MemLimiter.Config.Validate g = 0) (hwf : (Config.ofGo g).wf)
+    (total : Nat) (ht : total < W) (kk : MemLimiter.memUsageChecker)
+    (hk : MemLimiter.getMemUsageChecker g (some total) = some kk) (s : LState) (r : Reading) (rest : List Nat) :
+    let w' := MemLimiter.MemoryLimiter.CheckMemLimits ⟨kk, g.MinGCIntervalWhenSoftLimited, g.MinGCIntervalWhenHardLimited⟩ (worldOf s r rest)
+    kk.memSpikeLimit ≤ kk.memAllocLimit ∧
+    (w'.mustRefuse = true ↔ (if w'.gcCalls = 1 then r.allocAfterGC else r.alloc) ≥ kk.memAllocLimit - kk.memSpikeLimit) :=
+  C18_source_first_clause g hv hwf total (Or.inr ⟨ht, C18_src_percentage_repaired⟩) kk hk s r rest
+
+/-- the unrepaired formula violates "no underflow": an accepted configuration (50 % / 10 %) on a machine whose total memory
+reads 0x7FFFFFFFFFFF0000 (the cgroup-v1 "unlimited" value of kernels with 64 KiB pages) gets a spike limit ABOVE the limit
+(replayed on the real code: `construct` corpus case 1 against a tree without the repair) -/
+theorem C18_no_underflow_pinned_full_fails :
+    ¬ (∀ (c : Config) (total : Nat), validate c = 0 → c.wf → total < W → (mkChecker c total).spike ≤ (mkChecker c total).limit) := by
+  intro h
+  have := h ⟨1000000000, 10000000000, 0, 0, 0, 50, 10⟩ 9223372036854710272 (by decide) (by unfold Config.wf; decide) (by decide)
+  revert this
+  decide
+
+/-- … and the repaired one gives, for the same machine, limit 50 % and spike 10 % of the total -/
+example : mkCheckerSafe ⟨1000000000, 10000000000, 0, 0, 0, 50, 10⟩ 9223372036854710272 = ⟨4611686018427355136, 922337203685471027⟩ := by decide
+
+example : MemLimiter.Config.Validate ⟨1000000000, 10000000000, 0, 100, 20, 0, 0⟩ = 0 ∧
+    MemLimiter.getMemUsageChecker ⟨1000000000, 10000000000, 0, 100, 20, 0, 0⟩ (some 0) = some ⟨104857600, 20971520⟩ := by decide
+
+/-! ## the factory's cache -/
+
+def Factory.wf (f : Factory) : Prop := ∀ n (h : n < f.cache.length), (f.cache[n]).2 = n
+
+theorem Factory.lookup_new (f : Factory) (k : Nat) (h : f.lookup k = none) :
+    ({ cache := f.cache ++ [(k, f.cache.length)] } : Factory).lookup k = some f.cache.length := by
+  unfold Factory.lookup at h ⊢
+  have h' : f.cache.find? (·.1 = k) = none := by
+    cases hh : f.cache.find? (·.1 = k) <;> simp_all
+  simp [List.find?_append, h']
+
+/-- **one limiter per configuration key**: once a processor has been created for a key, every later creation for the same
+key gets the very same limiter and leaves the cache unchanged (whether or not a fresh construction would succeed) -/
+theorem C18_factory_same_key_shares (f : Factory) (k id : Nat) (ok ok' : Bool) (h : (f.get k ok).2 = some id) :
+    (f.get k ok).1.get k ok' = ((f.get k ok).1, some id) := by
+  unfold Factory.get at h ⊢
+  cases hl : f.lookup k with
+  | some i => simp_all
+  | none =>
+    cases ok
+    · simp [hl] at h
+    · simp only [hl, if_true] at h ⊢
+      rw [Factory.lookup_new f k hl]
+      simp_all
+
+/-- a failed construction caches nothing: the next creation for the key tries again -/
+theorem C18_factory_failure_not_cached (f : Factory) (k : Nat) (h : f.lookup k = none) :
+    f.get k false = (f, none) := by
+  simp [Factory.get, h]
+
+theorem Factory.wf_get (f : Factory) (hwf : f.wf) (k : Nat) (ok : Bool) : (f.get k ok).1.wf := by
+  unfold Factory.get
+  cases hl : f.lookup k with
+  | some i => exact hwf
+  | none =>
+    cases ok
+    · exact hwf
+    · intro n hn
+      simp only [if_true] at hn ⊢
+      by_cases hlt : n < f.cache.length
+      · rw [List.getElem_append_left hlt]; exact hwf n hlt
+      · have : n = f.cache.length := by simp at hn; omega
+        subst this
+        simp
+
+theorem Factory.lookup_mem (f : Factory) (k i : Nat) (h : f.lookup k = some i) : (k, i) ∈ f.cache := by
+  unfold Factory.lookup at h
+  cases hh : f.cache.find? (·.1 = k) with
+  | none => simp [hh] at h
+  | some p =>
+    simp [hh] at h
+    have hm := List.mem_of_find?_eq_some hh
+    have hp := List.find?_some hh
+    simp at hp
+    have : p = (k, i) := by cases p; simp_all
+    exact this ▸ hm
+
+/-- **different keys, different limiters** (even when the two configurations have equal values: the key is the pointer):
+in a cache built by `get`, two keys that both have a limiter have different ones -/
+theorem C18_factory_distinct_keys_distinct_limiters (f : Factory) (hwf : f.wf) (k k' i j : Nat)
+    (h1 : f.lookup k = some i) (h2 : f.lookup k' = some j) (hne : k ≠ k') : i ≠ j := by
+  intro hij
+  subst hij
+  obtain ⟨n, hn, en⟩ := List.getElem_of_mem (f.lookup_mem k i h1)
+  obtain ⟨m, hm, em⟩ := List.getElem_of_mem (f.lookup_mem k' i h2)
+  have a := hwf n hn
+  have b := hwf m hm
+  rw [en] at a
+  rw [em] at b
+  simp at a b
+  subst a
+  subst b
+  rw [en] at em
+  simp at em
+  exact hne em
+
+example : Factory.creates {} [(7, true), (8, true), (7, true), (9, false), (9, true), (8, false)] =
+    [some 0, some 1, some 0, none, some 2, some 1] := by decide
+example : ({} : Factory).wf := by intro n h; simp at h
+
+
+/-- the counters of `processML` (profiles are counted nowhere) are what the regenerated tables say: each `process*` function
+hands its own signal to `obsrep.refused` / `obsrep.accepted`, and `obsReport` has instruments for traces, metrics and
+logs only -/
+theorem C18_src_process_counts {α : Type} (sig : Sig) (refusing : Bool) (n : Nat) (payload : α) :
+    (processML sig refusing n payload).2.2 = countsFromTables sig refusing n ∧
+    (processML sig refusing n payload).1 = payload ∧
+    ((processML sig refusing n payload).2.1 = some .dataRefused ↔ refusing = true) := by
+  cases sig <;> cases refusing <;> simp [processML, countsFromTables, Sig.processFn, MemLimiter.processTable, MemLimiter.obs_refused, MemLimiter.obs_accepted]
+
+/-- every `process*` function takes its item count from the payload it was given (regenerated table: all four rows name a
+count method) and there is exactly one row per signal -/
+theorem C18_src_process_table_complete :
+    MemLimiter.processTable.map (·.1) = [Sig.logs, .traces, .metrics, .profiles].map Sig.processFn ∧
+    MemLimiter.processTable.all (fun r => r.2.1 != "" && r.2.2.1 == r.2.2.2) = true := by decide
+
+theorem totalMemory_lt (q : Quota) (mi : Option Nat) (hmi : ∀ m, mi = some m → m < W) (total : Nat)
+    (h : totalMemory q mi = some total) : total < W := by
+  unfold totalMemory at h
+  rcases q with _ | ⟨quota, d⟩
+  · simp at h
+  · simp only at h
+    split at h
+    · exact hmi total h
+    · simp at h
+      have h1 : (0 : Int) ≤ quota % 18446744073709551616 := Int.emod_nonneg _ (by decide)
+      have h2 : quota % 18446744073709551616 < 18446744073709551616 := Int.emod_lt_of_pos _ (by decide)
+      unfold W
+      omega
+
+/-- **from the machine to the mode, end to end** (repaired percentage formula): for every accepted configuration and EVERY state
+of the host — whatever the cgroup reads and `/proc/meminfo` return (`uint64` values) — either `NewMemoryLimiter` fails, which
+happens exactly on the percentage path when the total memory cannot be determined, or the limiter it builds has
+`spike ≤ limit` (no wrap-around of the soft limit) and after every check of every history refuses iff the latest measurement
+≥ limit − spike -/
+theorem C18_host_first_clause (c : Config) (hv : validate c = 0) (hwf : c.wf) (q : Quota) (mi : Option Nat)
+    (hmi : ∀ m, mi = some m → m < W) (now : Int) :
+    (newLimiterG newPctSafe c (totalMemory q mi) now = none ↔ (c.limitMiB = 0 ∧ totalMemory q mi = none)) ∧
+    ∀ l, newLimiterG newPctSafe c (totalMemory q mi) now = some l →
+      l.k.spike ≤ l.k.limit ∧ l.gcSoft = c.gcSoft ∧ l.gcHard = c.gcHard ∧ l.st.mustRefuse = false ∧
+      ∀ (s : LState) (r : Reading),
+        ((check l.k l.gcSoft l.gcHard s r).st.mustRefuse = true ↔ (check l.k l.gcSoft l.gcHard s r).latest ≥ l.k.limit - l.k.spike) := by
+  refine ⟨C18_newLimiter_error_iff newPctSafe c _ now, ?_⟩
+  intro l hl
+  cases ht : totalMemory q mi with
+  | none =>
+    -- only the fixed path can succeed without a total
+    rw [ht] at hl
+    have hfix : c.limitMiB ≠ 0 := by
+      intro h0
+      have := (C18_newLimiter_error_iff newPctSafe c none now).2 ⟨h0, rfl⟩
+      rw [this] at hl; cases hl
+    have e : newLimiterG newPctSafe c none now = newLimiterG newPctSafe c (some 0) now := by
+      simp [newLimiterG, mkCheckerGE, hfix]
+    rw [e, C18_newLimiter_ok] at hl
+    cases hl
+    have hu := C18_no_underflow_repaired c 0 hv hwf (by decide)
+    exact ⟨hu.1, rfl, rfl, rfl, fun s r => C18_refuse_iff _ hu.1 hu.2 _ _ s r⟩
+  | some total =>
+    rw [ht, C18_newLimiter_ok] at hl
+    cases hl
+    have hu := C18_no_underflow_repaired c total hv hwf (totalMemory_lt q mi hmi total ht)
+    exact ⟨hu.1, rfl, rfl, rfl, fun s r => C18_refuse_iff _ hu.1 hu.2 _ _ s r⟩
+
+/-- non-vacuity: 50 % / 10 % on a cgroup-v1 host whose quota reads 0x7FFFFFFFFFFF0000 (64 KiB pages; not recognised as "unlimited") -/
+example : (newLimiterG newPctSafe ⟨1000000000, 10000000000, 0, 0, 0, 50, 10⟩ (totalMemory (some (9223372036854710272, true)) (some 67609161728)) 0).map (·.k) =
+    some ⟨4611686018427355136, 922337203685471027⟩ := by decide
+
+
+theorem parseDigits_range (neg : Bool) (ds : List Char) (n : Int) (h : parseDigits neg ds = some n) :
+    -9223372036854775808 ≤ n ∧ n < 9223372036854775808 := by
+  unfold parseDigits at h
+  by_cases h1 : (ds.isEmpty || !ds.all Char.isDigit) = true
+  · simp [h1] at h
+  · simp only [h1] at h
+    cases neg
+    · by_cases h2 : digitsVal ds < 9223372036854775808
+      · simp [h2] at h; omega
+      · simp [h2] at h
+    · by_cases h2 : digitsVal ds ≤ 9223372036854775808
+      · simp [h2] at h; omega
+      · simp [h2] at h
+
+theorem parseInt64_range (s : List Char) (n : Int) (h : parseInt64 s = some n) : -9223372036854775808 ≤ n ∧ n < 9223372036854775808 := by
+  unfold parseInt64 at h
+  split at h <;> exact parseDigits_range _ _ n h
+
+/-- **cgroup v2 → total memory**: whatever `memory.max` holds, `memoryQuotaV2` followed by `TotalMemory`'s decision gives: an
+error for an unreadable / empty / non-numeric / out-of-range file; `/proc/meminfo` when the file is absent, says `max` or
+holds the "unlimited" value; otherwise the number in the file (a non-negative `int64`, so below 2^63 — far inside `uint64`) -/
+theorem C18_cgroup_v2_total (f : V2File) (mi : Option Nat) :
+    (memoryQuotaV2 f = none → totalMemory (memoryQuotaV2 f) mi = none) ∧
+    (∀ q, memoryQuotaV2 f = some (q, false) → totalMemory (memoryQuotaV2 f) mi = mi) ∧
+    (∀ q, memoryQuotaV2 f = some (q, true) → q ≠ 9223372036854771712 → 0 ≤ q →
+        totalMemory (memoryQuotaV2 f) mi = some q.toNat ∧ q.toNat < 9223372036854775808) := by
+  refine ⟨fun h => by rw [h]; rfl, fun q h => by rw [h]; simp [totalMemory], fun q h hne h0 => ?_⟩
+  have hr : q < 9223372036854775808 := by
+    cases f with
+    | absent => simp [memoryQuotaV2] at h
+    | unreadable => simp [memoryQuotaV2] at h
+    | content s =>
+      simp only [memoryQuotaV2] at h
+      split at h
+      · cases h
+      · split at h
+        · simp at h
+        · cases hp : parseInt64 (trimSpace ‹List Char›) with
+          | none => simp [hp] at h
+          | some n =>
+            simp [hp] at h
+            have := parseInt64_range _ n hp
+            omega
+  rw [h]
+  have hm : q % 18446744073709551616 = q := Int.emod_eq_of_lt h0 (by omega)
+  simp only [totalMemory, hne, false_or, Bool.true_eq_false, if_false, hm]
+  exact ⟨trivial, by omega⟩
+
+example : memoryQuotaV2 (.content "max\n".toList) = some (-1, false) ∧ memoryQuotaV2 (.content " 1073741824 \n".toList) = some (1073741824, true) ∧
+    memoryQuotaV2 (.content "".toList) = none ∧ memoryQuotaV2 (.content "12a\n".toList) = none ∧
+    memoryQuotaV2 (.content "9223372036854775808\n".toList) = none ∧ memoryQuotaV2 (.content "123\r\n456".toList) = some (123, true) ∧
+    memoryQuotaV2 .absent = some (-1, false) := by decide
+
+
+/-- **cgroup v1 → total memory**: `CGroups.MemoryQuota` + `TotalMemory`'s decision give an error when `memory.limit_in_bytes`
+cannot be read or is not a decimal `int64`; `/proc/meminfo` when the process has no memory cgroup, the value is ≤ 0 or the
+"unlimited" one; otherwise the positive number in the file (< 2^63) -/
+theorem C18_cgroup_v1_total (f : Option V2File) (mi : Option Nat) :
+    (memoryQuotaV1 f = none → totalMemory (memoryQuotaV1 f) mi = none) ∧
+    (∀ q, memoryQuotaV1 f = some (q, false) → totalMemory (memoryQuotaV1 f) mi = mi) ∧
+    (∀ q, memoryQuotaV1 f = some (q, true) → q ≠ 9223372036854771712 →
+        0 < q ∧ totalMemory (memoryQuotaV1 f) mi = some q.toNat ∧ q.toNat < 9223372036854775808) := by
+  refine ⟨fun h => by rw [h]; rfl, fun q h => by rw [h]; simp [totalMemory], fun q h hne => ?_⟩
+  have hr : 0 < q ∧ q < 9223372036854775808 := by
+    rcases f with _ | f
+    · simp [memoryQuotaV1] at h
+    · cases f with
+      | absent => simp [memoryQuotaV1] at h
+      | unreadable => simp [memoryQuotaV1] at h
+      | content s =>
+        simp only [memoryQuotaV1] at h
+        split at h
+        · cases h
+        · split at h
+          · cases h
+          · rename_i n hp
+            have := parseInt64_range _ n hp
+            split at h
+            · simp at h; omega
+            · simp at h
+  rw [h]
+  have hm : q % 18446744073709551616 = q := Int.emod_eq_of_lt (by omega) (by omega)
+  simp only [totalMemory, hne, false_or, Bool.true_eq_false, if_false, hm]
+  exact ⟨hr.1, trivial, by omega⟩
+
+example : memoryQuotaV1 none = some (-1, false) ∧ memoryQuotaV1 (some (.content "-1\n".toList)) = some (-1, false) ∧
+    memoryQuotaV1 (some (.content " 42\n".toList)) = none ∧ memoryQuotaV1 (some (.content "42\n".toList)) = some (42, true) ∧
+    memoryQuotaV1 (some .absent) = none := by decide
+
+
+/-- **source pins**: the regenerated statement lists of the functions that are modelled by hand (outside the compiled subset)
+are exactly the ones the model was written from — an edit of any of them stops the build until the model has been re-examined -/
+theorem C18_src_skeletons : SrcPinned := by
+  unfold SrcPinned
+  repeat' apply And.intro
+  all_goals rfl
+
+end Src
 
 end OtelVerif.C18
